@@ -172,11 +172,16 @@ def s_send_data(vc):
     side = vc.case("side", ["client", "server"])
     m = vc.case("already_pending_ciphertext_chunks", [0, 1, 2])
     peer_gone = vc.case("sendall", ["ok", "zero_return", "syscall_error"])
+    # close_notify only closes the peer's sending direction (RFC 8446 §6.1): what the inner layer sends afterwards must still go out
+    peer_half_closed = vc.case("peer_close_notify_received_before", [False, True])
     data = vc.sym_bytes("data")
     pending = [vc.sym_bytes(f"out{i}") for i in range(m)]
     exc = None if peer_gone == "ok" else SSL.ZeroReturnError if peer_gone == "zero_return" else SSL.SysCallError
-    ssl = mk_ssl(vc, outbox=pending, send_fail=exc)
+    ssl = mk_ssl(vc, outbox=pending, send_fail=exc, shutdown=SSL.RECEIVED_SHUTDOWN if peer_half_closed else 0)
     layer, conn, other, ctx, child = mk_tls_layer(vc, side, ssl)
+    if peer_half_closed:
+        from mitmproxy.connection import ConnectionState
+        conn.state = ConnectionState.CAN_WRITE  # what receive_data left behind when it delivered the close_notify
     out = vc.call(L + ":TLSLayer.send_data", layer, data)
     vc.ensure("no_exception", out.ok)
     if not out.ok:
@@ -442,9 +447,9 @@ def bounded(tier, seed):
     b.rule = ("real OpenSSL client and server peers around the real stack ServerTLSLayer/ClientTLSLayer/relay with the real TlsConfig (leaf certificate generated by mitmproxy and verified by the client peer; "
               "upstream certificate verified by mitmproxy): application payloads of sizes {1, 100, 16384, 16385, 40000} sent in records of {1 (<=300 bytes), 100, 16384} bytes, ciphertext delivered to "
               "mitmproxy whole / in 2 random cuts / in 1-byte (small) or 7- and 1000-byte segments, client->server, server->client and both interleaved, client data in the same flight as Finished, "
-              "close_notify from either peer after data; checked: inner layer and far peer see exactly the sent bytes in order once, close arrives after all data; "
+              "close_notify from either peer after data, and data sent to a peer after that peer's close_notify (half-close); checked: inner layer and far peer see exactly the sent bytes in order once, close arrives after all data; "
               "distinct = (payload, record, segmentation, schedule); non-trivial = payload > 1 record or segmented")
-    b.bound = "payload <= 40000 bytes (thorough: 150000), <= 300 one-byte records, 5 segmentation modes, 6 schedules; quick: 300 of the 312 combinations"
+    b.bound = "payload <= 40000 bytes (thorough: 150000), <= 300 one-byte records, 5 segmentation modes, 8 schedules; quick: 300 combinations (all half-close / interleaved / early-data ones with 2-cut and 7-byte segmentation first)"
     root, shapes = _pki()
     leaf, _, _ = shapes["match"]
 
@@ -461,12 +466,12 @@ def bounded(tier, seed):
             sizes = [1, 100, 16384, 16385, 40000]
             records = [1, 100, 16384]
             segs = ["whole", "cut2", 1, 7, 1000]
-            schedules = ["c2s", "s2c", "interleaved", "early_c2s", "close_client", "close_server"]
+            schedules = ["c2s", "s2c", "interleaved", "early_c2s", "close_client", "close_server", "halfclose_client_then_s2c", "halfclose_server_then_c2s"]
             cases = [(n, r, sg, sch) for n in sizes for r in records for sg in segs for sch in schedules
                      if not (r == 1 and n > 300) and not (sg == 1 and n > 2000) and not (sg == 7 and n > 20000)]
             if quick:
                 rnd.shuffle(cases)
-                core = [(n, r, sg, sch) for (n, r, sg, sch) in cases if (sch in ("interleaved", "early_c2s", "close_client", "close_server") and sg in ("cut2", 7) and r != 1) or (n <= 100 and sg == 1)]
+                core = [(n, r, sg, sch) for (n, r, sg, sch) in cases if (sch in ("interleaved", "early_c2s", "close_client", "close_server", "halfclose_client_then_s2c", "halfclose_server_then_c2s") and sg in ("cut2", 7) and r != 1) or (n <= 100 and sg == 1)]
                 seen_ = set()
                 cases = [c_ for c_ in core + cases if not (c_ in seen_ or seen_.add(c_))][:300]
             else:
@@ -485,7 +490,17 @@ def bounded(tier, seed):
                         b.fail("tls.both_handshakes_complete", inp, f"client={put.client.handshake_done}/{put.client.error!r} server={put.server.handshake_done}/{put.server.error!r} open_err={put.obs['open_err']!r} log={put.log}")
                         continue
                     sentX = sentY = b""
-                    if sch in ("c2s", "close_client"):
+                    if sch in ("halfclose_client_then_s2c", "halfclose_server_then_c2s"):
+                        # the peer sends data and its close_notify (TCP stays open); afterwards the other side's data must still reach it
+                        first, second = ("client", "server") if sch == "halfclose_client_then_s2c" else ("server", "client")
+                        conn, wire = put.send(first, X if first == "client" else Y, r)
+                        peer1 = put.client if first == "client" else put.server
+                        put._deliver(conn, wire + peer1.shutdown())
+                        put.settle()
+                        conn2, wire2 = put.send(second, X if second == "client" else Y, r)
+                        put._deliver(conn2, wire2)
+                        sentX, sentY = X, Y
+                    elif sch in ("c2s", "close_client"):
                         conn, wire = put.send("client", X, r)
                         put._deliver(conn, wire)
                         sentX = X
@@ -524,13 +539,13 @@ def bounded(tier, seed):
                         b.fail("s2c.inner_layer_sees_exact_bytes", inp, f"got {len(o['from_server'])} bytes, first diff at {_first_diff(bytes(o['from_server']), sentY)}")
                     if bytes(put.client.received) != sentY:
                         b.fail("s2c.client_receives_exact_bytes", inp, f"got {len(put.client.received)} bytes, first diff at {_first_diff(bytes(put.client.received), sentY)}")
-                    if sch in ("close_client", "close_server"):
-                        who = "client" if sch == "close_client" else "server"
+                    if sch in ("close_client", "close_server", "halfclose_client_then_s2c", "halfclose_server_then_c2s"):
+                        who = "client" if sch in ("close_client", "halfclose_client_then_s2c") else "server"
                         closes = [e for e in o["events"] if e[0] == "closed" and e[1] == who]
                         total = len(sentX) if who == "client" else len(sentY)
                         if len(closes) != 1:
                             b.fail("close_notify.delivered_once", inp, repr(o["events"][-4:]))
-                        elif closes[0][2] != total or o["events"][-1] != closes[0]:
+                        elif closes[0][2] != total or (sch.startswith("close_") and o["events"][-1] != closes[0]):
                             b.fail("close_notify.after_all_data", inp, repr(o["events"][-4:]))
                 except Exception as e:
                     import traceback
